@@ -171,6 +171,32 @@ def evaluate(c):
                         viol.append(('LOAD-LISTING-' + form, 'load on pulse %d (%s form): listing %s (count %s)' % (p, form, imp, n)))
             canon.append('%s|p%d' % (c['name'], p))
             nontriv.append(bool(special or tags != list(range(1, len(tags) + 1))))
+    # --- the writer's tag-relative form: load 1 on the odd, load 2 on the even pulse numbers (absolute form); the option
+    # list written with per-object attachments must name every pulse as (row k of its block, block tag)
+    rowsall = [(b['tag'], k + 1, r[6]) for b in blocks for k, r in enumerate(b['rows'])]
+    att = ['--attach-load=%d,%d' % (1 if p_ % 2 else 2, p_) for t_, k_, p_ in rowsall]
+    mw, dw = cli.build_main(base + ['--excitation-pulse=1', '--load=50', '--load=20+30j'] + att) if N >= 2 else (None, 'skip')
+    runs += 1
+    if mw is None:
+        if N >= 2:
+            viol.append(('WRITE-REJECTED', 'two loads on alternating pulses: %s' % dw))
+    else:
+        import re as _re
+        txt = mw.as_cmdline(load_by_geo=True)
+        got = set()
+        for l_, k_, t_ in _re.findall(r'--attach-load=(\d+),(\d+|all),(\d+)', txt):
+            if k_ == 'all':
+                got |= set((int(l_), int(t_), kk) for tt, kk, pp in rowsall if tt == int(t_))
+            else:
+                got.add((int(l_), int(t_), int(k_)))
+        for l_, p_ in _re.findall(r'--attach-load=(\d+),(\d+)\s*$', txt, flags=_re.M):
+            got |= set((int(l_), tt, kk) for tt, kk, pp in rowsall if pp == int(p_))
+        want_rel = set((1 if p_ % 2 else 2, t_, k_) for t_, k_, p_ in rowsall)
+        if got != want_rel:
+            viol.append(('WRITE-REL', 'option list written with per-object attachments names (load, tag, k) %s, the geometry table gives %s'
+                         % (sorted(got - want_rel), sorted(want_rel - got))))
+        canon.append('%s|write-rel' % c['name'])
+        nontriv.append(True)
     # --- all pulses of an object, all pulses of the antenna
     forms = [('--attach-load=1,all,%d' % b['tag'], [r[6] for r in b['rows']]) for b in blocks] + [('--attach-load=1,all', nums)]
     for opt, want in forms:
